@@ -152,13 +152,131 @@ func c11Body(maxN map[string]int, allPerms map[string]bool, maxTuple map[string]
 	}
 }
 
+// c11Wide: histories whose walk frontier is about a thousand commits wide: a head with W parents (W around 1024),
+// each a merge of two roots of its own, under three time assignments (roots oldest / roots in the middle of the
+// range / everything equal). Oracle without bitmasks: the walk from the head yields every commit exactly once;
+// every root and every middle commit is an ancestor of the head, no middle commit is an ancestor of another;
+// the merge base of two middle commits does not exist, of a middle commit and the head it is the middle commit.
+func c11Wide(c *mc.Ctx) {
+	W := []int{600, 1023, 1024, 1025, 1500}[c.Choose(5)]
+	timeMode := c.Choose(3)
+	c.Shard()
+	n := 3*W + 1
+	g := &model.Graph{Parents: make([][]int, n)}
+	times := make([]int, n)
+	var headParents []int
+	for i := 0; i < W; i++ {
+		g.Parents[2*i], g.Parents[2*i+1] = []int{}, []int{}
+		mid := 2*W + i
+		g.Parents[mid] = []int{2 * i, 2*i + 1}
+		headParents = append(headParents, mid)
+		switch timeMode {
+		case 0: // topological
+			times[2*i], times[2*i+1], times[mid] = i, i, W+i
+		case 1: // skewed clocks: a middle commit's roots carry times in the middle of the middle commits' range
+			times[mid] = W + i
+			times[2*i], times[2*i+1] = W+(i*7)%W, W+(i*13+5)%W
+		default:
+			times[2*i], times[2*i+1], times[mid] = 1, 1, 1
+		}
+	}
+	g.Parents[3*W] = headParents
+	times[3*W] = 3 * W
+	if timeMode == 2 {
+		times[3*W] = 1
+	}
+	db := stores.NewMemStore()
+	sums, err := buildCommits(db, g, times, nil)
+	if err != nil {
+		panic(err)
+	}
+	desc := fmt.Sprintf("head with %d parents, each a merge of two roots of its own (%d commits); time assignment %d (0 topological, 1 roots inside the middle commits' range, 2 all equal)", W, n, timeMode)
+	c.Logf("%s", desc)
+	idx := make(map[string]int, n)
+	for i, s := range sums {
+		idx[string(s)] = i
+	}
+	q, err := ref.NewCommitsQueue(db, [][]byte{sums[3*W]})
+	if err != nil {
+		c.Fail("walk", "NewCommitsQueue: %v; %s", err, desc)
+		return
+	}
+	visits := make([]int, n)
+	steps := 0
+	for {
+		s, _, err := q.PopInsertParents()
+		if errors.Is(err, io.EOF) {
+			break
+		}
+		if err != nil {
+			c.Fail("walk", "walk from the head returned %v after %d commits; %s", err, steps, desc)
+			return
+		}
+		steps++
+		if steps > 4*n {
+			c.Fail("walk", "walk from the head does not end (%d steps for %d commits); %s", steps, n, desc)
+			return
+		}
+		i, ok := idx[string(s)]
+		if !ok {
+			c.Fail("walk", "walk from the head yielded an unknown commit; %s", desc)
+			return
+		}
+		visits[i]++
+	}
+	missing, twice := 0, 0
+	for _, v := range visits {
+		if v == 0 {
+			missing++
+		} else if v > 1 {
+			twice++
+		}
+	}
+	if missing > 0 || twice > 0 {
+		c.Fail("walk", "walk from the head: %d ancestors never visited, %d visited more than once (every one of %d exactly once expected); %s", missing, twice, n, desc)
+		return
+	}
+	probe := []int{0, 1, W / 2, W - 2, W - 1}
+	for _, i := range probe {
+		for _, a := range []int{2 * i, 2*i + 1, 2*W + i} {
+			ok, err := ref.IsAncestorOf(db, sums[a], sums[3*W])
+			if err != nil || !ok {
+				c.Fail("ancestor", "IsAncestorOf(node %d, head)=%v (err %v) although it is reachable; %s", a, ok, err, desc)
+				return
+			}
+		}
+		j := probe[(i+1)%len(probe)]
+		if i != j {
+			if ok, err := ref.IsAncestorOf(db, sums[2*W+i], sums[2*W+j]); err != nil || ok {
+				c.Fail("ancestor", "IsAncestorOf(middle %d, middle %d)=%v (err %v) although they are unrelated; %s", i, j, ok, err, desc)
+				return
+			}
+			if base, err := ref.SeekCommonAncestor(db, sums[2*W+i], sums[2*W+j]); err == nil {
+				c.Fail("mergebase-spurious", "SeekCommonAncestor(middle %d, middle %d) = node %d although they share no ancestor; %s", i, j, idx[string(base)], desc)
+				return
+			}
+		}
+		base, err := ref.SeekCommonAncestor(db, sums[3*W], sums[2*W+i])
+		if err != nil || idx[string(base)] != 2*W+i {
+			c.Fail("mergebase-not-input", "SeekCommonAncestor(head, middle %d) = %v (err %v), the middle commit itself expected; %s", i, idx[string(base)], err, desc)
+			return
+		}
+	}
+	c.Outcome(fmt.Sprintf("walked-all-timemode%d", timeMode))
+	c.Nontrivial(desc)
+	if c.WantSample() && timeMode == 1 {
+		c.Sample(map[string]any{"case": desc, "commits_walked": steps})
+	}
+}
+
 func init() {
 	register(&mc.Check{
 		ID:    "C11",
 		Level: "exploration",
 		Rule: "every commit DAG with 1..n nodes (node i picks <=2 parents among 0..i-1, merge parents in both orders: merges, several roots) x timestamp vectors (all n! permutations of distinct times incl. reversed, all equal, pairwise equal) " +
 			"stored as real commit objects; on each: IsAncestorOf for all n^2 ordered pairs, the PopInsertParents walk from every node, SeekCommonAncestor on every ordered tuple of 2..k (not necessarily distinct) commits, " +
-			"all compared with bitmask reachability. n<=4,k<=3 quick; n<=5 (all 120 permutations), k<=4 thorough. A case is non-trivial (and counted distinct by graph+times) when n>=3 and some tuple has a common ancestor",
+			"all compared with bitmask reachability. n<=4,k<=3 quick; n<=5 (all 120 permutations), k<=4 thorough. A case is non-trivial (and counted distinct by graph+times) when n>=3 and some tuple has a common ancestor. " +
+			"Plus (wide-frontiers) a head with 600 / 1023 / 1024 / 1025 / 1500 parents, each a merge of two roots of its own, under three time assignments (topological, roots inside the middle commits' range, all equal): the walk from the head yields each of the 3W+1 commits exactly once; ancestry and merge-base probes on five middle commits",
 		Assumptions: []string{"graphs beyond 5 nodes and more than 2 parents per commit are not enumerated", "commit times have one-second resolution (the format's)"},
 		Harnesses: []*mc.Harness{
 			{
@@ -166,6 +284,7 @@ func init() {
 				Body:   c11Body(map[string]int{"quick": 4, "thorough": 5}, map[string]bool{"quick": false, "thorough": true}, map[string]int{"quick": 3, "thorough": 4}),
 				Budget: map[string]time.Duration{"quick": 60 * time.Second, "thorough": 12 * time.Minute},
 			},
+			{Name: "wide-frontiers", Body: c11Wide, Budget: map[string]time.Duration{"quick": 60 * time.Second, "thorough": 5 * time.Minute}},
 		},
 	})
 }
